@@ -212,13 +212,8 @@ pub unsafe extern "C" fn surjectionproof_parse(
         return 0;
     }
     (*proof).n_inputs = input_len;
-    let mut i = 0;
-    while i < SURJ_MODEL_MAX {
-        if i < input_len {
-            (*proof).data[i] = s[i];
-        }
-        i += 1;
-    }
+    let keep = if input_len < SURJ_MODEL_MAX { input_len } else { SURJ_MODEL_MAX };
+    core::ptr::copy_nonoverlapping(input_bytes, (*proof).data.as_mut_ptr(), keep);
     1
 }
 pub unsafe extern "C" fn surjectionproof_serialized_size(
@@ -237,13 +232,8 @@ pub unsafe extern "C" fn surjectionproof_serialize(
     if *outputlen < n || (n > SURJ_MODEL_MAX && !SURJ_LEN_ONLY) {
         return 0;
     }
-    let mut i = 0;
-    while i < SURJ_MODEL_MAX {
-        if i < n {
-            *output.add(i) = (*proof).data[i];
-        }
-        i += 1;
-    }
+    let keep = if n < SURJ_MODEL_MAX { n } else { SURJ_MODEL_MAX };
+    core::ptr::copy_nonoverlapping((*proof).data.as_ptr(), output, keep);
     *outputlen = n;
     1
 }
